@@ -10,12 +10,13 @@
    (The unknown-field table pointer is not part of the relation: no decision depends on it.  Impl/HeapInv.v's hwt says
    when it exists.)
 
-   ONE DISAGREEMENT was found; it is excluded by a hypothesis on the input length (HeapSim2.v, max_sim_len):
+   ONE DISAGREEMENT was found by this proof, and has since been removed from the value-level model:
    the C code refuses a message with more than 16 * (2^23 - 1) = 134217712 members at one nesting level ("too many
    fields": which_slab == MAX_SCANNED_MEMBER_SLAB = 22), and so does Impl/Heap.v (h_scan: Nat.eqb w 22); the
-   value-level scan_loop has no such limit.  A member takes at least 2 bytes, so inputs of at most
-   2 * 134217712 + 1 = 268435425 bytes cannot reach the limit; [h_scan_slab_limit] and Example [slab_limit_diverges]
-   (HeapSim2.v) exhibit the diverging step.
+   value-level scan_loop has no such limit, and unpack used to accept such inputs (the smallest: 268435426 bytes).
+   Impl/Unpack.v's unpack now makes the test right after the scan (max_members), and the simulation covers every input
+   of less than 2^31 bytes; [h_scan_slab_limit], [h_scan_sim] and Example [slab_limit_diverges] (HeapSim2.v) show the
+   step and how the two models meet there.
 
    One UNREACHABLE state also disagrees and is excluded by the invariant, not by a hypothesis: merge_messages on a
    singular string member holding the "static default" pointer when the field has no default (value level:
